@@ -86,6 +86,8 @@ type TypeContract struct {
 	// Replaced: guarded fields whose map/slice object is never mutated once published (the field is only ever
 	// re-pointed under the lock): reading the object needs no lock, writing it is never allowed
 	Replaced map[string]bool
+	// EntriesReplaced: guarded map fields whose entries (inner maps) are never mutated once stored
+	EntriesReplaced map[string]bool
 	// Confined: fields that are written after construction but by one goroutine only (reason given); assumptions
 	Confined map[string]string
 	LockInv  map[string][]*Clause
@@ -275,7 +277,7 @@ func (db *ContractDB) parseLines(p *packages.Package, file string, lines []srcLi
 			db.externsByName[rest] = append(db.externsByName[rest], curFunc)
 		case "type":
 			curFunc = nil
-			curType = &TypeContract{Pkg: p.PkgPath, Name: rest, GuardedBy: map[string]string{}, LockInv: map[string][]*Clause{}, Replaced: map[string]bool{}, Confined: map[string]string{}}
+			curType = &TypeContract{Pkg: p.PkgPath, Name: rest, GuardedBy: map[string]string{}, LockInv: map[string][]*Clause{}, Replaced: map[string]bool{}, EntriesReplaced: map[string]bool{}, Confined: map[string]string{}}
 			db.types[p.PkgPath+"."+rest] = curType
 		case "spec":
 			curFunc, curType = nil, nil
@@ -479,6 +481,10 @@ func (db *ContractDB) parseLines(p *packages.Package, file string, lines []srcLi
 			mu := strings.TrimSpace(rest[:i])
 			for _, f := range strings.Split(rest[i+1:], ",") {
 				f = strings.TrimSpace(f)
+				if strings.HasSuffix(f, "(entries replaced)") {
+					f = strings.TrimSpace(strings.TrimSuffix(f, "(entries replaced)"))
+					curType.EntriesReplaced[f] = true
+				}
 				if strings.HasSuffix(f, "(replaced)") {
 					f = strings.TrimSpace(strings.TrimSuffix(f, "(replaced)"))
 					curType.Replaced[f] = true
